@@ -1,7 +1,7 @@
 /-
   C09 — Unsatisfied required points fail start-up cleanly; optional ones never do.
   PROPERTY THEOREMS ONLY (lemmas: IocProofs/Lemmas/AppLemmas.lean, M2Step.lean, M2StepInv.lean, M2StepFault.lean,
-  M2StepFresh.lean).
+  M2StepFresh.lean, M2Succeeds*.lean).
 
   Model: Ioc.App.appRun (app/app.go:80-154) over the factory machine Ioc.Container (factory.go, InitializeComponent
   post_processor_registration_delegate.go:96-136).  Every theorem is for ALL scenarios (every dependency graph,
@@ -20,6 +20,7 @@ import IocProofs.Lemmas.AppLemmas
 import IocProofs.Lemmas.M2StepFault
 import IocProofs.Lemmas.M2StepFresh
 import IocProofs.Lemmas.M2Examples
+import IocProofs.Lemmas.M2SucceedsConv
 import Ioc.Match
 namespace Ioc.C09
 open Ioc Ioc.M2 Ioc.App
@@ -191,6 +192,31 @@ theorem C09_failure_cause (sc : Scen) (st : St) (x : Nat) (s : Stage) (hr : st.s
        (initResult sc x ≠ raw x ∧ ∃ e, st.l2 x = some e ∧ finishedHolderHas sc st e = true))) :=
   Lc.failure_cause sc st x s hr hf
 
+/-! ### a fault on a reachable name always fails the start (converse of C02_succeeds)
+
+  `Sx.Reach sc n`: n is in boot ++ eager or a candidate of a point of a reached name.  `Sx.StaticFault sc n`: n is not a
+  definition, or (wired) its configuration fails / a required point has no candidate, or one of its callbacks fails, or
+  it has a required point whose candidates are all n itself, or one with an unassignable candidate other than n.
+  `Lc.WF sc`: post-processors return an object of the component they were given (`(earlyO n).name = n`,
+  `(afterO n).name = n`) — otherwise arbitrary substitution, any candidate order, any other faults. -/
+
+/-- A static fault on a name the start can reach makes the start fail: the machine never ends in `done`; it ends
+    `failed` (termination). -/
+theorem C09_fault_fails (sc : Scen) (wf : Lc.WF sc) (n : Nat) (hn : Sx.Reach sc n) (hf : Sx.StaticFault sc n) :
+    (final sc).status ≠ .done ∧ ∃ x s, (final sc).status = .failed x s := by
+  have hnd : (final sc).status ≠ .done := fun hd => Sx.done_no_fault sc wf _ hd n hn hf
+  refine ⟨hnd, ?_⟩
+  cases h : (final sc).status with
+  | running => exact absurd h (terminates_any sc)
+  | done => exact absurd h hnd
+  | failed x s => exact ⟨x, s, rfl⟩
+
+/-- The same read forwards: after a successful start (ANY name-preserving post-processors, any order) every reachable
+    name has been created and none of them has a static fault. -/
+theorem C09_done_sound (sc : Scen) (wf : Lc.WF sc) (hd : (final sc).status = .done) (n : Nat) (hn : Sx.Reach sc n) :
+    (final sc).l1 n ≠ none ∧ ¬ Sx.StaticFault sc n :=
+  ⟨Sx.done_reach_published sc wf _ hd n hn, Sx.done_no_fault sc wf _ hd n hn⟩
+
 /-! ### non-vacuity -/
 
 open Ioc.M2.Ex
@@ -227,5 +253,16 @@ example : (run cycInitFault 7 (init cycInitFault)).status = .running ∧
 example : (appRun { appScen 0 with loaderFail := true }).outcome = .errConfig ∧
     (appRun { appScen 0 with scanFail := true }).outcome = .errFactory ∧
     (appRun (appScen 3)).outcome = .errRunners ∧ (appRun (appScen 0)).outcome = .ok := by decide
+
+/-- the hypotheses of C09_fault_fails: component 5 of `cycInitFault` is reached along 0 → 1 → 2 → 3 → 5 and its Init fails;
+    component 3 of `cycMissing` has a required point without candidate -/
+example : Sx.Reach cycInitFault 5 ∧ Sx.StaticFault cycInitFault 5 :=
+  ⟨((((Sx.Reach.root (n := 0) (by decide)).edge 1 (by decide)).edge 2 (by decide)).edge 3 (by decide)).edge 5 (by decide),
+   by decide⟩
+example : Lc.WF cycInitFault ∧ Lc.WF cycMissing := ⟨⟨fun _ => rfl, fun _ => rfl⟩, ⟨fun _ => rfl, fun _ => rfl⟩⟩
+example : Sx.Reach cycMissing 3 ∧ Sx.StaticFault cycMissing 3 :=
+  ⟨(((Sx.Reach.root (n := 0) (by decide)).edge 1 (by decide)).edge 2 (by decide)).edge 3 (by decide), by decide⟩
+/-- the lazy component 6 is not needed by anybody: a fault there does not matter (C05_lazy_only_if_needed) -/
+example : (final { cyc with fInit := fun n => n == 6 }).status = .done := by decide
 
 end Ioc.C09
